@@ -94,6 +94,25 @@ static int caseA(long unused)
     printf("demo4: matrixSslGetReadbufOfSize(ssl, 20000) with the allocation failing = %d (PS_MEM_FAIL is %d); "
         "now inbuf = %p, insize = %d, inlen = %d\n", rc, PS_MEM_FAIL, c.ssl->inbuf, c.ssl->insize, c.ssl->inlen);
 
+    if (c.ssl->inbuf != NULL)
+    {
+        /* library kept its buffer: the application carries on with the normal read path */
+        int32 off = 100;
+        rc = 0;
+        while (off < recLen)
+        {
+            n = matrixSslGetReadbuf(c.ssl, &rb);
+            if (n <= 0) break;
+            if (n > recLen - off) n = recLen - off;
+            memcpy(rb, rec + off, n); off += n;
+            rc = matrixSslReceivedData(c.ssl, n, &pt, &ptLen);
+            if (rc != MATRIXSSL_REQUEST_RECV) break;
+        }
+        printf("demo4: rest of the record fed after the failed call: matrixSslReceivedData = %d (%s), %u plaintext bytes%s\n",
+            rc, rc == MATRIXSSL_APP_DATA ? "MATRIXSSL_APP_DATA" : "?", rc == MATRIXSSL_APP_DATA ? ptLen : 0,
+            (rc == MATRIXSSL_APP_DATA && ptLen == 600 && pt[0] == 'A' && pt[599] == 'A') ? " - stream intact" : "");
+        if (!(rc == MATRIXSSL_APP_DATA && ptLen == 600)) { printf("VIOLATION: the buffered part of the record was lost\n"); bad = 1; }
+    }
     /* the application gives up and deletes everything */
     matrixSslDeleteSession(c.ssl);
     matrixSslDeleteSession(s.ssl);
@@ -226,14 +245,19 @@ static int caseC(long k)
     return 0;
 }
 
-int main(void)
+#define WANT(c) (argc < 2 || strchr(argv[1], (c)))
+int main(int argc, char **argv)
 {
     long n, from;
     int bad = 0, b;
     setvbuf(stdout, NULL, _IOLBF, 0);
+    if (WANT('A')) {
     printf("demo4 case A: matrixSslGetReadbufOfSize with a partial record buffered\n");
-    bad += dc_run_forked("case A", caseA, 1, 1);
-
+    b = dc_run_forked("case A", caseA, 1, 1);
+    if (!b) printf("OK: demo4 case A\n");
+    bad += b;
+    }
+    if (WANT('B')) {
     n = dc_count(caseB);
     printf("demo4 case B: the client makes about %ld allocations between receiving ServerHelloDone and having its "
         "second flight ready (the exact count depends on the random values of the run); CertificateVerify is "
@@ -250,13 +274,17 @@ int main(void)
             }
         }
     }
-    printf("demo4 case B: %s\n", b ? "a single fault left memory allocated for good" : "not hit in this run (random values); run again");
+    printf("demo4 case B: %s\n", b ? "a single fault left memory allocated for good" : "no leak in any of the runs");
+    if (!b) printf("OK: demo4 case B\n");
     bad += b;
-
+    }
+    if (WANT('C')) {
     n = dc_count(caseC);
     printf("demo4 case C: TLS 1.3 / ffdhe2048 handshake makes %ld allocations; failing each one in turn\n", n);
     b = dc_run_forked("case C", caseC, 1, n);
     printf("demo4 case C: %d of %ld single faults left memory allocated for good\n", b, n);
+    if (!b) printf("OK: demo4 case C\n");
     bad += b;
+    }
     return bad ? 1 : 0;
 }
